@@ -616,6 +616,7 @@ func replayToServerConf(own *security.SessionCache, requireAuth bool, rec []byte
 	sst := stream.NewStream(cb)
 	sst.SetPeerAddr("10.0.0.1:1111")
 	cb.Inject(rec)
+	ca.CloseWrite() // the recording is all there is: after it the server reads EOF (it can still write its reply)
 	sc := *srvConf(true)
 	if !requireAuth {
 		sc.Authentication = security.SecurityOptional
@@ -638,6 +639,7 @@ func replayToClient(ccache *security.SessionCache, rec []byte) bool {
 	defer cb.Close()
 	cst := stream.NewStream(ca)
 	ca.Inject(rec)
+	cb.CloseWrite() // the recording is all there is: after it the client reads EOF (it can still write)
 	cc := *cliConf(ccache, "")
 	a := security.NewAuthenticator(&cc, cst)
 	if _, err := a.ClientHandshake(ctx); err != nil {
